@@ -1,6 +1,11 @@
 /-
   DDS.Proofs.Collapsing — refinement proofs for the collapsing dense stores
   (`kind = .low N` : `CollapsingLowestDenseStore`, `kind = .high N` : `CollapsingHighestDenseStore`).
+
+  `hG : GrowthOK` (the float computation of `getNewLength` covers spans below `2^33`) is proved
+  in `DDS.Proofs.Growth`; since it only covers bounded spans, every theorem about an operation
+  that may grow the array carries a span hypothesis `SpanOK` or the int32 hypotheses
+  (`Tight32` + int32 index) from which it follows (`InvLow.spanOK`, `InvHigh.spanOK`).
 -/
 import DDS.Proofs.Dense
 import DDS.Proofs.Bins
@@ -11,9 +16,9 @@ namespace DStore
 /-! ## generic facts (independent of the kind) -/
 
 theorem getNewLength_low (hG : GrowthOK) (s : DStore) (N : Nat) (hk : s.kind = .low N)
-    (a b : Int) (hab : a ≤ b) :
+    (a b : Int) (hab : a ≤ b) (hsp : b - a < 2^33) :
     ∃ L, s.getNewLength a b = some L ∧ L ≤ N ∧ (b - a + 1 ≤ L ∨ L = N) := by
-  obtain ⟨d, hd, hge⟩ := hG a b hab
+  obtain ⟨d, hd, hge⟩ := hG a b hab hsp
   refine ⟨min d N, ?_, by omega, by omega⟩
   unfold getNewLength
   rw [hd, hk]; rfl
@@ -371,7 +376,7 @@ theorem ExtLow.self {N : Nat} {s : DStore} (h : InvLow N s) (h0 : s.count ≠ 0)
       wtEq := h.self_fold s.maxIndex (fun _ => by omega) }
 
 theorem low_extendRange_spec (hG : GrowthOK) (N : Nat) (s : DStore) (h : InvLow N s) (a b : Int)
-    (hab : a ≤ b) :
+    (hab : a ≤ b) (hspan : SpanOK s a b) :
     ∃ t, s.extendRange a b = some t ∧ ExtLow N s t (min a s.minIndex) (max b s.maxIndex) := by
   have hN := h.hN
   simp only [extendRange]
@@ -379,7 +384,7 @@ theorem low_extendRange_spec (hG : GrowthOK) (N : Nat) (s : DStore) (h : InvLow 
   · rw [if_pos h0]
     obtain ⟨hsz, hmin, hmax, hcol⟩ := h.empty h0
     obtain ⟨L, hL, hLN, hLge⟩ := getNewLength_low hG s N h.kind (min a s.minIndex) (max b s.maxIndex)
-      (by omega)
+      (by omega) hspan
     rw [hL]
     simp only [Option.bind_eq_bind, Option.bind_some]
     have hL1 : 1 ≤ L := by omega
@@ -484,7 +489,7 @@ theorem low_extendRange_spec (hG : GrowthOK) (N : Nat) (s : DStore) (h : InvLow 
             exact h.self_fold (max b s.maxIndex) (fun _ => by omega) j }
     · rw [if_neg hin]
       obtain ⟨L, hL, hLN, hLge⟩ := getNewLength_low hG s N h.kind (min a s.minIndex)
-        (max b s.maxIndex) (by omega)
+        (max b s.maxIndex) (by omega) hspan
       rw [hL]
       simp only [Option.bind_eq_bind, Option.bind_some]
       -- the (possibly grown) state handed to `adjust`
@@ -685,7 +690,8 @@ theorem ExtLow.finish {N : Nat} {s t : DStore} {mn mx : Int} (x : ExtLow N s t m
 
 /-! ## `normalize` / `addWithCount` of the lowest-collapsing store -/
 
-theorem low_normalize_spec (hG : GrowthOK) (N : Nat) (s : DStore) (h : InvLow N s) (i : Int) :
+theorem low_normalize_spec (hG : GrowthOK) (N : Nat) (s : DStore) (h : InvLow N s) (i : Int)
+    (hsp : SpanOK s i i) :
     ∃ t, s.normalize i = some (t, max i (max i s.maxIndex - N + 1) - t.offset) ∧
       ExtLow N s t (min i s.minIndex) (max i s.maxIndex) := by
   have hN := h.hN
@@ -708,7 +714,7 @@ theorem low_normalize_spec (hG : GrowthOK) (N : Nat) (s : DStore) (h : InvLow N 
           { kind := x.kind, count := rfl, maxI := rfl, minI := by omega, off := x.off, hi := x.hi
             lenLe := x.lenLe, coll := x.coll, collOf := fun _ => ⟨hc, c1⟩, wtEq := x.wtEq }
     · rw [if_neg hc]
-      obtain ⟨t, ht, x⟩ := low_extendRange_spec hG N s h i i (Int.le_refl _)
+      obtain ⟨t, ht, x⟩ := low_extendRange_spec hG N s h i i (Int.le_refl _) hsp
       rw [ht]
       simp only [Option.bind_eq_bind, Option.bind_some, Option.pure_def]
       refine ⟨t, ?_, x⟩
@@ -723,7 +729,7 @@ theorem low_normalize_spec (hG : GrowthOK) (N : Nat) (s : DStore) (h : InvLow N 
   · rw [if_neg h1]
     by_cases h2 : i > s.maxIndex
     · rw [if_pos h2]
-      obtain ⟨t, ht, x⟩ := low_extendRange_spec hG N s h i i (Int.le_refl _)
+      obtain ⟨t, ht, x⟩ := low_extendRange_spec hG N s h i i (Int.le_refl _) hsp
       rw [ht]
       simp only [Option.bind_eq_bind, Option.bind_some, Option.pure_def]
       refine ⟨t, ?_, x⟩
@@ -743,9 +749,10 @@ def addFold (s : DStore) (i : Int) (w : Rat) (e : Int) (j : Int) : Rat :=
   foldW (fun k => wt s k + if k = i then w else 0) (cum s e + if i ≤ e then w else 0) e j
 
 /-- no panic, invariant kept, weight conserved, and the new content is
-    "exact add, then fold at `max − N + 1`" — for arbitrary `Int` indexes -/
+    "exact add, then fold at `max − N + 1`" — for any `Int` index within a span of `2^33`
+    (`hsp`; automatic for int32 indexes, `InvLow.spanOK`) -/
 theorem low_addWithCount_full (hG : GrowthOK) (N : Nat) (s : DStore) (h : InvLow N s) (i : Int)
-    (w : Rat) (hw : 0 ≤ w) :
+    (w : Rat) (hw : 0 ≤ w) (hsp : SpanOK s i i) :
     ∃ s', s.addWithCount i w = some s' ∧ InvLow N s' ∧ s'.count = s.count + w ∧
       (w ≠ 0 → s'.maxIndex = max i s.maxIndex ∧
         s'.minIndex = max (min i s.minIndex) (max i s.maxIndex - N + 1) ∧
@@ -757,7 +764,7 @@ theorem low_addWithCount_full (hG : GrowthOK) (N : Nat) (s : DStore) (h : InvLow
     exact ⟨s, rfl, h, by rw [hw0]; grind, fun hne => absurd hw0 hne⟩
   · rw [if_neg hw0]
     have hwpos : 0 < w := by grind
-    obtain ⟨t, hn, x⟩ := low_normalize_spec hG N s h i
+    obtain ⟨t, hn, x⟩ := low_normalize_spec hG N s h i hsp
     have hmn : min i s.minIndex ≤ s.minIndex := by omega
     have hmx : s.maxIndex ≤ max i s.maxIndex := by omega
     have hmi := x.minI
@@ -814,11 +821,36 @@ def Tight32 (s : DStore) : Prop :=
 
 theorem tight32_new (k : DKind) : Tight32 (DStore.new k) := fun h => absurd rfl h
 
+/-- under `Tight32` the window bounds are int32 (sentinels of the empty store included) -/
+theorem window32_gen (s : DStore) (ht : Tight32 s)
+    (hemp : s.count = 0 → s.minIndex = maxInt32 ∧ s.maxIndex = minInt32)
+    (hwin : s.count ≠ 0 → s.minIndex ≤ s.maxIndex) :
+    (minInt32 ≤ s.minIndex ∧ s.minIndex ≤ maxInt32) ∧ (minInt32 ≤ s.maxIndex ∧ s.maxIndex ≤ maxInt32) := by
+  by_cases h0 : s.count = 0
+  · obtain ⟨h1, h2⟩ := hemp h0
+    rw [h1, h2]; simp only [maxInt32, minInt32]; omega
+  · obtain ⟨_, _, t3, t4⟩ := ht h0
+    have := hwin h0
+    omega
+
+theorem InvLow.window32 {N : Nat} {s : DStore} (h : InvLow N s) (ht : Tight32 s) :
+    (minInt32 ≤ s.minIndex ∧ s.minIndex ≤ maxInt32) ∧ (minInt32 ≤ s.maxIndex ∧ s.maxIndex ≤ maxInt32) :=
+  window32_gen s ht (fun h0 => ⟨(h.empty h0).2.1, (h.empty h0).2.2.1⟩) (fun h0 => (h.window h0).2.1)
+
+/-- int32 indexes never need a span of `2^33` or more -/
+theorem InvLow.spanOK {N : Nat} {s : DStore} (h : InvLow N s) (ht : Tight32 s) (a b : Int)
+    (ha : minInt32 ≤ a ∧ a ≤ maxInt32) (hb : minInt32 ≤ b ∧ b ≤ maxInt32) : SpanOK s a b := by
+  obtain ⟨⟨w1, w2⟩, w3, w4⟩ := h.window32 ht
+  unfold SpanOK
+  simp only [maxInt32, minInt32] at *
+  omega
+
 theorem low_addWithCount_tight (hG : GrowthOK) (N : Nat) (s : DStore) (h : InvLow N s)
     (ht : Tight32 s) (i : Int) (w : Rat) (hw : 0 ≤ w) (hi : minInt32 ≤ i ∧ i ≤ maxInt32) :
     ∀ s', s.addWithCount i w = some s' → Tight32 s' := by
   intro s' hs'
   obtain ⟨s'', h1, hinv, hcnt, hrest⟩ := low_addWithCount_full hG N s h i w hw
+    (h.spanOK ht i i hi hi)
   rw [h1] at hs'
   cases hs'
   by_cases hw0 : w = 0
@@ -1103,9 +1135,10 @@ theorem low_mergeSame_cont (N M : Nat) (s o s1 : DStore) (hs : InvLow N s) (ho :
 
 /-- EVERY same-kind merge is safe — whatever the two limits `N`, `M`, the widths and the emptiness
     of the two stores — keeps the invariant, conserves the weight, and the new content is
-    "exact pointwise sum, then fold at `max − N + 1`" (arbitrary `Int` indexes) -/
+    "exact pointwise sum, then fold at `max − N + 1`" (any `Int` indexes within a span of
+    `2^33`, `hsp`; automatic under `Tight32`) -/
 theorem low_mergeSame_full (hG : GrowthOK) (N M : Nat) (s o : DStore) (hs : InvLow N s)
-    (ho : InvLow M o) :
+    (ho : InvLow M o) (hsp : SpanOK s o.minIndex o.maxIndex) :
     ∃ s', s.mergeSame o = some s' ∧ InvLow N s' ∧ s'.count = s.count + o.count ∧
       (o.count ≠ 0 → s'.maxIndex = max o.maxIndex s.maxIndex ∧
         s'.minIndex = max (min o.minIndex s.minIndex) (max o.maxIndex s.maxIndex - N + 1) ∧
@@ -1121,7 +1154,7 @@ theorem low_mergeSame_full (hG : GrowthOK) (N M : Nat) (s o : DStore) (hs : InvL
     have h0 : o.count ≠ 0 := fun h0 => he ((isEmpty_iff_count o).2 h0)
     obtain ⟨ow1, ow2, ow3⟩ := ho.window h0
     by_cases hc : o.minIndex < s.minIndex ∨ o.maxIndex > s.maxIndex
-    · obtain ⟨s1, hs1e, x⟩ := low_extendRange_spec hG N s hs o.minIndex o.maxIndex ow2
+    · obtain ⟨s1, hs1e, x⟩ := low_extendRange_spec hG N s hs o.minIndex o.maxIndex ow2 hsp
       simp only [if_pos hc, hs1e, Option.bind_eq_bind, Option.bind_some, Option.pure_def, x.kind]
       have key := low_mergeSame_cont N M s o s1 hs ho h0 x
       simp only [Option.bind_eq_bind, Option.pure_def, x.kind] at key
@@ -1142,6 +1175,7 @@ theorem low_mergeSame_tight (hG : GrowthOK) (N M : Nat) (s o : DStore) (hs : Inv
     ∀ s', s.mergeSame o = some s' → Tight32 s' := by
   intro s' hs'
   obtain ⟨s'', h1, hinv, hcnt, hrest⟩ := low_mergeSame_full hG N M s o hs ho
+    (hs.spanOK ts _ _ (ho.window32 to).1 (ho.window32 to).2)
   rw [h1] at hs'
   cases hs'
   by_cases h0 : o.count = 0
@@ -1212,15 +1246,19 @@ theorem low_mergeSame_tight (hG : GrowthOK) (N M : Nat) (s o : DStore) (hs : Inv
 
 /-! ## `mergeBins`, `clear`, `reweight` -/
 
-theorem low_mergeBins_inv (hG : GrowthOK) (N : Nat) (s : DStore) (h : InvLow N s)
-    (l : List (Int × Rat)) (hl : ∀ p ∈ l, 0 ≤ p.2) :
+theorem low_mergeBins_inv (hG : GrowthOK) (N : Nat) (s : DStore) (h : InvLow N s) (ht : Tight32 s)
+    (l : List (Int × Rat)) (hl : ∀ p ∈ l, 0 ≤ p.2)
+    (hl32 : ∀ p ∈ l, minInt32 ≤ p.1 ∧ p.1 ≤ maxInt32) :
     ∃ s', s.mergeBins l = some s' ∧ InvLow N s' ∧ s'.count = s.count + (l.map (·.2)).sum := by
   unfold mergeBins
   induction l generalizing s with
   | nil => exact ⟨s, rfl, h, by simp; grind⟩
   | cons p l ih =>
     obtain ⟨s1, h1, hi1, hc1, _⟩ := low_addWithCount_full hG N s h p.1 p.2 (hl p (by simp))
-    obtain ⟨s2, h2, hi2, hc2⟩ := ih s1 hi1 (fun q hq => hl q (by simp [hq]))
+      (h.spanOK ht _ _ (hl32 p (by simp)) (hl32 p (by simp)))
+    have ht1 := low_addWithCount_tight hG N s h ht p.1 p.2 (hl p (by simp)) (hl32 p (by simp)) s1 h1
+    obtain ⟨s2, h2, hi2, hc2⟩ := ih s1 hi1 ht1 (fun q hq => hl q (by simp [hq]))
+      (fun q hq => hl32 q (by simp [hq]))
     refine ⟨s2, ?_, hi2, ?_⟩
     · rw [List.foldlM_cons, h1]; exact h2
     · rw [hc2, hc1, List.map_cons, List.sum_cons]; grind
@@ -1576,6 +1614,7 @@ theorem low_addWithCount_ok (hG : GrowthOK) (N : Nat) (s : DStore) (h : InvLow N
     ∃ s', s.addWithCount i w = some s' ∧ InvLow N s' ∧ Tight32 s' ∧ s'.count = s.count + w ∧
       content s' = Content.specLow N ((content s).add i w) := by
   obtain ⟨s', h1, hinv, hcnt, hrest⟩ := low_addWithCount_full hG N s h i w hw
+    (h.spanOK ht i i hi hi)
   have ht' := low_addWithCount_tight hG N s h ht i w hw hi s' h1
   refine ⟨s', h1, hinv, ht', hcnt, ?_⟩
   by_cases hw0 : w = 0
@@ -1622,6 +1661,7 @@ theorem low_mergeSame_ok (hG : GrowthOK) (N M : Nat) (s o : DStore) (hs : InvLow
     ∃ s', s.mergeSame o = some s' ∧ InvLow N s' ∧ Tight32 s' ∧ s'.count = s.count + o.count ∧
       content s' = Content.specLow N ((content s).merge (content o)) := by
   obtain ⟨s', h1, hinv, hcnt, hrest⟩ := low_mergeSame_full hG N M s o hs ho
+    (hs.spanOK ts _ _ (ho.window32 to).1 (ho.window32 to).2)
   have ht' := low_mergeSame_tight hG N M s o hs ho ts to s' h1
   refine ⟨s', h1, hinv, ht', hcnt, ?_⟩
   obtain ⟨_, hwfs, hlks⟩ := low_content_spec N s hs
@@ -1823,37 +1863,46 @@ theorem low_keyAtRank_spec (N : Nat) (s : DStore) (h : InvLow N s) (r : Rat) :
 
 /-! ## every reachable state -/
 
-theorem low_applyOp_ok (hG : GrowthOK) (N : Nat) (s : DStore) (h : InvLow N s) (op : Op)
-    (hop : match op with | .add _ w => 0 ≤ w | _ => True) :
-    ∃ s', applyOp s op = some s' ∧ InvLow N s' := by
+/-- admissible operations: non-negative weights on int32 indexes (int32 is needed for safety
+    itself, `DStore.GrowthOK` only covers spans below `2^33`, and for the exact clamping
+    relation, `low_below_int32_discrepancy`) -/
+def Op.ok32 : Op → Prop
+  | .add i w => 0 ≤ w ∧ minInt32 ≤ i ∧ i ≤ maxInt32
+  | _ => True
+
+theorem low_applyOp_ok (hG : GrowthOK) (N : Nat) (s : DStore) (h : InvLow N s) (ht : Tight32 s)
+    (op : Op) (hop : op.ok32) :
+    ∃ s', applyOp s op = some s' ∧ InvLow N s' ∧ Tight32 s' := by
   cases op with
   | add i w =>
-    obtain ⟨s', h1, h2, _⟩ := low_addWithCount_full hG N s h i w hop
-    exact ⟨s', h1, h2⟩
-  | clear => exact ⟨s.clear, rfl, invLow_clear N s h⟩
+    obtain ⟨s', h1, h2, _⟩ := low_addWithCount_full hG N s h i w hop.1 (h.spanOK ht i i hop.2 hop.2)
+    exact ⟨s', h1, h2, low_addWithCount_tight hG N s h ht i w hop.1 hop.2 s' h1⟩
+  | clear => exact ⟨s.clear, rfl, invLow_clear N s h, fun hc => absurd rfl hc⟩
   | reweight w =>
     simp only [applyOp]
     by_cases hc : w ≤ 0 ∨ w = 1
-    · rw [if_pos hc]; exact ⟨s, rfl, h⟩
+    · rw [if_pos hc]; exact ⟨s, rfl, h, ht⟩
     · rw [if_neg hc]
-      obtain ⟨s', h1, h2, _⟩ := low_reweight_full N s h w (by grind)
-      exact ⟨s', h1, h2⟩
+      have hw : 0 < w := by grind
+      obtain ⟨s', h1, h2, _⟩ := low_reweight_full N s h w hw
+      exact ⟨s', h1, h2, low_reweight_tight N s h ht w hw s' h1⟩
 
 theorem low_run_from (hG : GrowthOK) (N : Nat) (ops : List Op) (s : DStore) (h : InvLow N s)
-    (hops : ∀ op ∈ ops, match op with | .add _ w => 0 ≤ w | _ => True) :
-    ∃ s', ops.foldlM applyOp s = some s' ∧ InvLow N s' := by
+    (ht : Tight32 s) (hops : ∀ op ∈ ops, op.ok32) :
+    ∃ s', ops.foldlM applyOp s = some s' ∧ InvLow N s' ∧ Tight32 s' := by
   induction ops generalizing s with
-  | nil => exact ⟨s, rfl, h⟩
+  | nil => exact ⟨s, rfl, h, ht⟩
   | cons op ops ih =>
-    obtain ⟨s1, h1, hi1⟩ := low_applyOp_ok hG N s h op (hops op (by simp))
-    obtain ⟨s2, h2, hi2⟩ := ih s1 hi1 (fun q hq => hops q (by simp [hq]))
-    exact ⟨s2, by rw [List.foldlM_cons, h1]; exact h2, hi2⟩
+    obtain ⟨s1, h1, hi1, ht1⟩ := low_applyOp_ok hG N s h ht op (hops op (by simp))
+    obtain ⟨s2, h2, hi2, ht2⟩ := ih s1 hi1 ht1 (fun q hq => hops q (by simp [hq]))
+    exact ⟨s2, by rw [List.foldlM_cons, h1]; exact h2, hi2, ht2⟩
 
-/-- no history (arbitrary `Int` indexes, non-negative weights) panics or breaks the invariant -/
+/-- no history (int32 indexes, non-negative weights) panics or breaks the invariant -/
 theorem low_run_ok (hG : GrowthOK) (N : Nat) (hN : 1 ≤ N) (ops : List Op)
-    (hops : ∀ op ∈ ops, match op with | .add _ w => 0 ≤ w | _ => True) :
-    ∃ s, ops.foldlM applyOp (DStore.new (.low N)) = some s ∧ InvLow N s :=
-  low_run_from hG N ops _ (invLow_new N hN) hops
+    (hops : ∀ op ∈ ops, op.ok32) :
+    ∃ s, ops.foldlM applyOp (DStore.new (.low N)) = some s ∧ InvLow N s := by
+  obtain ⟨s, h1, h2, _⟩ := low_run_from hG N ops _ (invLow_new N hN) (tight32_new _) hops
+  exact ⟨s, h1, h2⟩
 
 /-! ## histories: "fold at every step" = "fold once" -/
 
@@ -1865,11 +1914,6 @@ def specStep (c : Content) : Op → Content
 
 /-- the exact content of a history: what an unbounded store would hold -/
 def exactContent (ops : List Op) : Content := ops.foldl specStep []
-
-/-- admissible operations: non-negative weights on int32 indexes -/
-def Op.ok32 : Op → Prop
-  | .add i w => 0 ≤ w ∧ minInt32 ≤ i ∧ i ≤ maxInt32
-  | _ => True
 
 theorem wf_specStep (c : Content) (hc : Content.WF c) (op : Op) (hop : op.ok32) :
     Content.WF (specStep c op) := by
@@ -1964,7 +2008,7 @@ theorem low_below_int32_discrepancy (hG : GrowthOK) :
       (Content.specLow 3 ((content (DStore.new (.low 3))).add (minInt32 - 5) 1)).lookup
         (minInt32 - 5) = 1 := by
   obtain ⟨s', h1, _, _, h4⟩ := low_addWithCount_full hG 3 (DStore.new (.low 3))
-    (invLow_new 3 (by omega)) (minInt32 - 5) 1 (by decide)
+    (invLow_new 3 (by omega)) (minInt32 - 5) 1 (by decide) (by unfold SpanOK; decide)
   obtain ⟨hma, _, hwt⟩ := h4 (by decide)
   have hw0 : ∀ j, wt (DStore.new (.low 3)) j = 0 := fun j => by simp [wt, DStore.new, at0_empty]
   have hc0 : ∀ e, cum (DStore.new (.low 3)) e = 0 := fun e => rsum_zero _ _ (fun j _ _ => hw0 j)
@@ -2225,9 +2269,9 @@ theorem collapseHigh_spec (t : DStore) (nMin nM : Int) (hnM : nM = nMin + t.len 
 /-! ## the invariant of the highest-collapsing store -/
 
 theorem getNewLength_high (hG : GrowthOK) (s : DStore) (N : Nat) (hk : s.kind = .high N)
-    (a b : Int) (hab : a ≤ b) :
+    (a b : Int) (hab : a ≤ b) (hsp : b - a < 2^33) :
     ∃ L, s.getNewLength a b = some L ∧ L ≤ N ∧ (b - a + 1 ≤ L ∨ L = N) := by
-  obtain ⟨d, hd, hge⟩ := hG a b hab
+  obtain ⟨d, hd, hge⟩ := hG a b hab hsp
   refine ⟨min d N, ?_, by omega, by omega⟩
   unfold getNewLength
   rw [hd, hk]; rfl
@@ -2246,6 +2290,17 @@ structure InvHigh (N : Nat) (s : DStore) : Prop where
   lenLe   : s.bins.size ≤ N
   collapsed : s.isCollapsed = true →
               s.offset = s.minIndex ∧ s.bins.size = N ∧ s.maxIndex - s.minIndex + 1 = N
+
+theorem InvHigh.window32 {N : Nat} {s : DStore} (h : InvHigh N s) (ht : Tight32 s) :
+    (minInt32 ≤ s.minIndex ∧ s.minIndex ≤ maxInt32) ∧ (minInt32 ≤ s.maxIndex ∧ s.maxIndex ≤ maxInt32) :=
+  window32_gen s ht (fun h0 => ⟨(h.empty h0).2.1, (h.empty h0).2.2.1⟩) (fun h0 => (h.window h0).2.1)
+
+theorem InvHigh.spanOK {N : Nat} {s : DStore} (h : InvHigh N s) (ht : Tight32 s) (a b : Int)
+    (ha : minInt32 ≤ a ∧ a ≤ maxInt32) (hb : minInt32 ≤ b ∧ b ≤ maxInt32) : SpanOK s a b := by
+  obtain ⟨⟨w1, w2⟩, w3, w4⟩ := h.window32 ht
+  unfold SpanOK
+  simp only [maxInt32, minInt32] at *
+  omega
 
 theorem invHigh_new (N : Nat) (hN : 1 ≤ N) : InvHigh N (DStore.new (.high N)) where
   kind := rfl
@@ -2392,7 +2447,7 @@ theorem ExtHigh.self {N : Nat} {s : DStore} (h : InvHigh N s) (h0 : s.count ≠ 
       wtEq := h.self_fold s.minIndex (fun _ => by omega) }
 
 theorem high_extendRange_spec (hG : GrowthOK) (N : Nat) (s : DStore) (h : InvHigh N s) (a b : Int)
-    (hab : a ≤ b) :
+    (hab : a ≤ b) (hspan : SpanOK s a b) :
     ∃ t, s.extendRange a b = some t ∧ ExtHigh N s t (min a s.minIndex) (max b s.maxIndex) := by
   have hN := h.hN
   simp only [extendRange]
@@ -2400,7 +2455,7 @@ theorem high_extendRange_spec (hG : GrowthOK) (N : Nat) (s : DStore) (h : InvHig
   · rw [if_pos h0]
     obtain ⟨hsz, hmin, hmax, hcol⟩ := h.empty h0
     obtain ⟨L, hL, hLN, hLge⟩ := getNewLength_high hG s N h.kind (min a s.minIndex) (max b s.maxIndex)
-      (by omega)
+      (by omega) hspan
     rw [hL]
     simp only [Option.bind_eq_bind, Option.bind_some]
     have hL1 : 1 ≤ L := by omega
@@ -2503,7 +2558,7 @@ theorem high_extendRange_spec (hG : GrowthOK) (N : Nat) (s : DStore) (h : InvHig
             exact h.self_fold (min a s.minIndex) (fun _ => by omega) j }
     · rw [if_neg hin]
       obtain ⟨L, hL, hLN, hLge⟩ := getNewLength_high hG s N h.kind (min a s.minIndex)
-        (max b s.maxIndex) (by omega)
+        (max b s.maxIndex) (by omega) hspan
       rw [hL]
       simp only [Option.bind_eq_bind, Option.bind_some]
       have key : ∀ (t0 : DStore), t0.kind = .high N → t0.count = s.count → t0.offset = s.offset →
@@ -2637,7 +2692,8 @@ theorem ExtHigh.finish {N : Nat} {s t : DStore} {mn mx : Int} (x : ExtHigh N s t
 
 /-! ## `normalize` / `addWithCount` of the highest-collapsing store -/
 
-theorem high_normalize_spec (hG : GrowthOK) (N : Nat) (s : DStore) (h : InvHigh N s) (i : Int) :
+theorem high_normalize_spec (hG : GrowthOK) (N : Nat) (s : DStore) (h : InvHigh N s) (i : Int)
+    (hsp : SpanOK s i i) :
     ∃ t, s.normalize i = some (t, min i (min i s.minIndex + N - 1) - t.offset) ∧
       ExtHigh N s t (min i s.minIndex) (max i s.maxIndex) := by
   have hN := h.hN
@@ -2661,7 +2717,7 @@ theorem high_normalize_spec (hG : GrowthOK) (N : Nat) (s : DStore) (h : InvHigh 
           { kind := x.kind, count := rfl, minI := rfl, maxI := by omega, off := x.off, hi := x.hi
             lenLe := x.lenLe, coll := x.coll, collOf := fun _ => ⟨hc, c1⟩, wtEq := x.wtEq }
     · rw [if_neg hc]
-      obtain ⟨t, ht, x⟩ := high_extendRange_spec hG N s h i i (Int.le_refl _)
+      obtain ⟨t, ht, x⟩ := high_extendRange_spec hG N s h i i (Int.le_refl _) hsp
       rw [ht]
       simp only [Option.bind_eq_bind, Option.bind_some, Option.pure_def]
       refine ⟨t, ?_, x⟩
@@ -2678,7 +2734,7 @@ theorem high_normalize_spec (hG : GrowthOK) (N : Nat) (s : DStore) (h : InvHigh 
   · rw [if_neg h1]
     by_cases h2 : i < s.minIndex
     · rw [if_pos h2]
-      obtain ⟨t, ht, x⟩ := high_extendRange_spec hG N s h i i (Int.le_refl _)
+      obtain ⟨t, ht, x⟩ := high_extendRange_spec hG N s h i i (Int.le_refl _) hsp
       rw [ht]
       simp only [Option.bind_eq_bind, Option.bind_some, Option.pure_def]
       refine ⟨t, ?_, x⟩
@@ -2697,7 +2753,7 @@ def addFoldH (s : DStore) (i : Int) (w : Rat) (e : Int) (j : Int) : Rat :=
   foldWH (fun k => wt s k + if k = i then w else 0) (cumH s e + if e ≤ i then w else 0) e j
 
 theorem high_addWithCount_full (hG : GrowthOK) (N : Nat) (s : DStore) (h : InvHigh N s) (i : Int)
-    (w : Rat) (hw : 0 ≤ w) :
+    (w : Rat) (hw : 0 ≤ w) (hsp : SpanOK s i i) :
     ∃ s', s.addWithCount i w = some s' ∧ InvHigh N s' ∧ s'.count = s.count + w ∧
       (w ≠ 0 → s'.minIndex = min i s.minIndex ∧
         s'.maxIndex = min (max i s.maxIndex) (min i s.minIndex + N - 1) ∧
@@ -2709,7 +2765,7 @@ theorem high_addWithCount_full (hG : GrowthOK) (N : Nat) (s : DStore) (h : InvHi
     exact ⟨s, rfl, h, by rw [hw0]; grind, fun hne => absurd hw0 hne⟩
   · rw [if_neg hw0]
     have hwpos : 0 < w := by grind
-    obtain ⟨t, hn, x⟩ := high_normalize_spec hG N s h i
+    obtain ⟨t, hn, x⟩ := high_normalize_spec hG N s h i hsp
     have hmn : min i s.minIndex ≤ s.minIndex := by omega
     have hmx : s.maxIndex ≤ max i s.maxIndex := by omega
     have hmi := x.minI
@@ -2760,6 +2816,7 @@ theorem high_addWithCount_tight (hG : GrowthOK) (N : Nat) (s : DStore) (h : InvH
     ∀ s', s.addWithCount i w = some s' → Tight32 s' := by
   intro s' hs'
   obtain ⟨s'', h1, hinv, hcnt, hrest⟩ := high_addWithCount_full hG N s h i w hw
+    (h.spanOK ht i i hi hi)
   rw [h1] at hs'
   cases hs'
   by_cases hw0 : w = 0
@@ -3033,7 +3090,7 @@ theorem high_mergeSame_cont (N M : Nat) (s o s1 : DStore) (hs : InvHigh N s) (ho
         · rw [if_neg hj2, if_neg hj2]
 
 theorem high_mergeSame_full (hG : GrowthOK) (N M : Nat) (s o : DStore) (hs : InvHigh N s)
-    (ho : InvHigh M o) :
+    (ho : InvHigh M o) (hsp : SpanOK s o.minIndex o.maxIndex) :
     ∃ s', s.mergeSame o = some s' ∧ InvHigh N s' ∧ s'.count = s.count + o.count ∧
       (o.count ≠ 0 → s'.minIndex = min o.minIndex s.minIndex ∧
         s'.maxIndex = min (max o.maxIndex s.maxIndex) (min o.minIndex s.minIndex + N - 1) ∧
@@ -3049,7 +3106,7 @@ theorem high_mergeSame_full (hG : GrowthOK) (N M : Nat) (s o : DStore) (hs : Inv
     have h0 : o.count ≠ 0 := fun h0 => he ((isEmpty_iff_count o).2 h0)
     obtain ⟨ow1, ow2, ow3⟩ := ho.window h0
     by_cases hc : o.minIndex < s.minIndex ∨ o.maxIndex > s.maxIndex
-    · obtain ⟨s1, hs1e, x⟩ := high_extendRange_spec hG N s hs o.minIndex o.maxIndex ow2
+    · obtain ⟨s1, hs1e, x⟩ := high_extendRange_spec hG N s hs o.minIndex o.maxIndex ow2 hsp
       simp only [if_pos hc, hs1e, Option.bind_eq_bind, Option.bind_some, Option.pure_def, x.kind]
       have key := high_mergeSame_cont N M s o s1 hs ho h0 x
       simp only [Option.bind_eq_bind, Option.pure_def, x.kind] at key
@@ -3070,6 +3127,7 @@ theorem high_mergeSame_tight (hG : GrowthOK) (N M : Nat) (s o : DStore) (hs : In
     ∀ s', s.mergeSame o = some s' → Tight32 s' := by
   intro s' hs'
   obtain ⟨s'', h1, hinv, hcnt, hrest⟩ := high_mergeSame_full hG N M s o hs ho
+    (hs.spanOK ts _ _ (ho.window32 to).1 (ho.window32 to).2)
   rw [h1] at hs'
   cases hs'
   by_cases h0 : o.count = 0
@@ -3140,15 +3198,19 @@ theorem high_mergeSame_tight (hG : GrowthOK) (N M : Nat) (s o : DStore) (hs : In
 
 /-! ## `mergeBins`, `clear`, `reweight` (highest-collapsing) -/
 
-theorem high_mergeBins_inv (hG : GrowthOK) (N : Nat) (s : DStore) (h : InvHigh N s)
-    (l : List (Int × Rat)) (hl : ∀ p ∈ l, 0 ≤ p.2) :
+theorem high_mergeBins_inv (hG : GrowthOK) (N : Nat) (s : DStore) (h : InvHigh N s) (ht : Tight32 s)
+    (l : List (Int × Rat)) (hl : ∀ p ∈ l, 0 ≤ p.2)
+    (hl32 : ∀ p ∈ l, minInt32 ≤ p.1 ∧ p.1 ≤ maxInt32) :
     ∃ s', s.mergeBins l = some s' ∧ InvHigh N s' ∧ s'.count = s.count + (l.map (·.2)).sum := by
   unfold mergeBins
   induction l generalizing s with
   | nil => exact ⟨s, rfl, h, by simp; grind⟩
   | cons p l ih =>
     obtain ⟨s1, h1, hi1, hc1, _⟩ := high_addWithCount_full hG N s h p.1 p.2 (hl p (by simp))
-    obtain ⟨s2, h2, hi2, hc2⟩ := ih s1 hi1 (fun q hq => hl q (by simp [hq]))
+      (h.spanOK ht _ _ (hl32 p (by simp)) (hl32 p (by simp)))
+    have ht1 := high_addWithCount_tight hG N s h ht p.1 p.2 (hl p (by simp)) (hl32 p (by simp)) s1 h1
+    obtain ⟨s2, h2, hi2, hc2⟩ := ih s1 hi1 ht1 (fun q hq => hl q (by simp [hq]))
+      (fun q hq => hl32 q (by simp [hq]))
     refine ⟨s2, ?_, hi2, ?_⟩
     · rw [List.foldlM_cons, h1]; exact h2
     · rw [hc2, hc1, List.map_cons, List.sum_cons]; grind
@@ -3393,6 +3455,7 @@ theorem high_addWithCount_ok (hG : GrowthOK) (N : Nat) (s : DStore) (h : InvHigh
     ∃ s', s.addWithCount i w = some s' ∧ InvHigh N s' ∧ Tight32 s' ∧ s'.count = s.count + w ∧
       content s' = Content.specHigh N ((content s).add i w) := by
   obtain ⟨s', h1, hinv, hcnt, hrest⟩ := high_addWithCount_full hG N s h i w hw
+    (h.spanOK ht i i hi hi)
   have ht' := high_addWithCount_tight hG N s h ht i w hw hi s' h1
   refine ⟨s', h1, hinv, ht', hcnt, ?_⟩
   by_cases hw0 : w = 0
@@ -3434,6 +3497,7 @@ theorem high_mergeSame_ok (hG : GrowthOK) (N M : Nat) (s o : DStore) (hs : InvHi
     ∃ s', s.mergeSame o = some s' ∧ InvHigh N s' ∧ Tight32 s' ∧ s'.count = s.count + o.count ∧
       content s' = Content.specHigh N ((content s).merge (content o)) := by
   obtain ⟨s', h1, hinv, hcnt, hrest⟩ := high_mergeSame_full hG N M s o hs ho
+    (hs.spanOK ts _ _ (ho.window32 to).1 (ho.window32 to).2)
   have ht' := high_mergeSame_tight hG N M s o hs ho ts to s' h1
   refine ⟨s', h1, hinv, ht', hcnt, ?_⟩
   obtain ⟨_, hwfs, hlks⟩ := high_content_spec N s hs
@@ -3573,36 +3637,38 @@ theorem high_maxIndex? (N : Nat) (s : DStore) (h : InvHigh N s) (ht : Tight32 s)
 
 /-! ## every reachable state / histories (highest-collapsing) -/
 
-theorem high_applyOp_ok (hG : GrowthOK) (N : Nat) (s : DStore) (h : InvHigh N s) (op : Op)
-    (hop : match op with | .add _ w => 0 ≤ w | _ => True) :
-    ∃ s', applyOp s op = some s' ∧ InvHigh N s' := by
+theorem high_applyOp_ok (hG : GrowthOK) (N : Nat) (s : DStore) (h : InvHigh N s) (ht : Tight32 s)
+    (op : Op) (hop : op.ok32) :
+    ∃ s', applyOp s op = some s' ∧ InvHigh N s' ∧ Tight32 s' := by
   cases op with
   | add i w =>
-    obtain ⟨s', h1, h2, _⟩ := high_addWithCount_full hG N s h i w hop
-    exact ⟨s', h1, h2⟩
-  | clear => exact ⟨s.clear, rfl, invHigh_clear N s h⟩
+    obtain ⟨s', h1, h2, _⟩ := high_addWithCount_full hG N s h i w hop.1 (h.spanOK ht i i hop.2 hop.2)
+    exact ⟨s', h1, h2, high_addWithCount_tight hG N s h ht i w hop.1 hop.2 s' h1⟩
+  | clear => exact ⟨s.clear, rfl, invHigh_clear N s h, fun hc => absurd rfl hc⟩
   | reweight w =>
     simp only [applyOp]
     by_cases hc : w ≤ 0 ∨ w = 1
-    · rw [if_pos hc]; exact ⟨s, rfl, h⟩
+    · rw [if_pos hc]; exact ⟨s, rfl, h, ht⟩
     · rw [if_neg hc]
-      obtain ⟨s', h1, h2, _⟩ := high_reweight_full N s h w (by grind)
-      exact ⟨s', h1, h2⟩
+      have hw : 0 < w := by grind
+      obtain ⟨s', h1, h2, _⟩ := high_reweight_full N s h w hw
+      exact ⟨s', h1, h2, high_reweight_tight N s h ht w hw s' h1⟩
 
 theorem high_run_from (hG : GrowthOK) (N : Nat) (ops : List Op) (s : DStore) (h : InvHigh N s)
-    (hops : ∀ op ∈ ops, match op with | .add _ w => 0 ≤ w | _ => True) :
-    ∃ s', ops.foldlM applyOp s = some s' ∧ InvHigh N s' := by
+    (ht : Tight32 s) (hops : ∀ op ∈ ops, op.ok32) :
+    ∃ s', ops.foldlM applyOp s = some s' ∧ InvHigh N s' ∧ Tight32 s' := by
   induction ops generalizing s with
-  | nil => exact ⟨s, rfl, h⟩
+  | nil => exact ⟨s, rfl, h, ht⟩
   | cons op ops ih =>
-    obtain ⟨s1, h1, hi1⟩ := high_applyOp_ok hG N s h op (hops op (by simp))
-    obtain ⟨s2, h2, hi2⟩ := ih s1 hi1 (fun q hq => hops q (by simp [hq]))
-    exact ⟨s2, by rw [List.foldlM_cons, h1]; exact h2, hi2⟩
+    obtain ⟨s1, h1, hi1, ht1⟩ := high_applyOp_ok hG N s h ht op (hops op (by simp))
+    obtain ⟨s2, h2, hi2, ht2⟩ := ih s1 hi1 ht1 (fun q hq => hops q (by simp [hq]))
+    exact ⟨s2, by rw [List.foldlM_cons, h1]; exact h2, hi2, ht2⟩
 
 theorem high_run_ok (hG : GrowthOK) (N : Nat) (hN : 1 ≤ N) (ops : List Op)
-    (hops : ∀ op ∈ ops, match op with | .add _ w => 0 ≤ w | _ => True) :
-    ∃ s, ops.foldlM applyOp (DStore.new (.high N)) = some s ∧ InvHigh N s :=
-  high_run_from hG N ops _ (invHigh_new N hN) hops
+    (hops : ∀ op ∈ ops, op.ok32) :
+    ∃ s, ops.foldlM applyOp (DStore.new (.high N)) = some s ∧ InvHigh N s := by
+  obtain ⟨s, h1, h2, _⟩ := high_run_from hG N ops _ (invHigh_new N hN) (tight32_new _) hops
+  exact ⟨s, h1, h2⟩
 
 theorem specHigh_add_specHigh (N : Nat) (hN : 1 ≤ N) (E : Content) (hE : Content.WF E) (i : Int)
     (w : Rat) (hw : 0 ≤ w) :
@@ -3772,7 +3838,7 @@ theorem high_above_int32_discrepancy (hG : GrowthOK) :
       (Content.specHigh 3 ((content (DStore.new (.high 3))).add (maxInt32 + 5) 1)).lookup
         (maxInt32 + 5) = 1 := by
   obtain ⟨s', h1, _, _, h4⟩ := high_addWithCount_full hG 3 (DStore.new (.high 3))
-    (invHigh_new 3 (by omega)) (maxInt32 + 5) 1 (by decide)
+    (invHigh_new 3 (by omega)) (maxInt32 + 5) 1 (by decide) (by unfold SpanOK; decide)
   obtain ⟨hmi, _, hwt⟩ := h4 (by decide)
   have hw0 : ∀ j, wt (DStore.new (.high 3)) j = 0 := fun j => by simp [wt, DStore.new, at0_empty]
   have hc0 : ∀ e, cumH (DStore.new (.high 3)) e = 0 := fun e => cumH_zero_of_all _ hw0 e
